@@ -13,8 +13,9 @@ Inductive xev :=
 | XAbort (n : nat)
 | XAck (n : nat)
 | XErr (n : nat)
-| XCrash
+| XCrash (k : nat)
 | XReopen
+| XReopenFail
 | XGet (b : bytes) (found : bool) (res : bytes).   (* lookup of the identifier of the VAA encoded by b *)
 
 Definition to_ev (x : xev) : option ev :=
@@ -24,8 +25,9 @@ Definition to_ev (x : xev) : option ev :=
   | XAbort n => Some (EAbort n)
   | XAck n => Some (EAck n)
   | XErr n => Some (EErr n)
-  | XCrash => Some ECrash
+  | XCrash k => Some (ECrash k)
   | XReopen => Some EReopen
+  | XReopenFail => Some EReopenFail
   | XGet b found res => match unmarshal b with Ok v => Some (EGet (id_of v) (if found then Found res else NotFound)) | Err _ => None end
   end.
 
